@@ -17,6 +17,7 @@ func init() {
 func runC06(c *mon.Ctx) {
 	now := BaseTime(c.Seed)
 	w := NewWorld(now)
+	pool := &SPPool{}
 	n := c.N(4000, 250000)
 	for k := 0; k < n; k++ {
 		cs := c.Begin("conditions", k)
@@ -122,7 +123,7 @@ func runC06(c *mon.Ctx) {
 		}
 		cs.Desc("cfgAud=%q restrictions=%q otu=%v proxy=%s n=%d", cfgAud, a0.Cond.Restrictions, a0.Cond.OneTimeUse, proxyString(a0.Cond.Proxy), len(rec.Assertions))
 		cs.Input([]byte(doc))
-		sp, _, _ := NewSP(now, signer)
+		sp, _, _ := pool.SPSource(k, now, signer)
 		sp.AudienceURI = cfgAud
 		ai, err := sp.RetrieveAssertionInfo(sim.Encode(doc, sim.RawLevel))
 		if err != nil {
